@@ -98,7 +98,10 @@ class Family:
         self._cfg: T.Dict[int, CFG] = {}
         self._mro: T.Dict[str, T.List[T.Tuple[Module, ast.ClassDef]]] = {}
         self._resolved: T.Dict[T.Tuple[str, str], T.Optional[str]] = {}
-        self._static: T.Dict[T.Tuple[int, T.Optional[str]], T.Any] = {}
+        self._static: T.Dict[T.Any, T.Any] = {}
+        self._peff: T.Dict[T.Any, Status] = {}
+        self._peff_busy: T.Set[T.Any] = set()
+        self.sites: T.Dict[T.Tuple[int, str], T.List[T.Tuple[Status, str]]] = {}
         self.rounds = 0
         self.roles: T.Dict[str, str] = {'__init__': 'init', FLUSH: 'flush', **{n: 'design' for n in DESIGN_READERS}}
 
@@ -173,6 +176,65 @@ class Family:
                 break
         self.roles = roles
 
+    # -- calls into repository helpers: bind by signature, summarise the effect on a list handed over ------------
+    def resolve_callee(self, an: 'Analysis', call: ast.Call) -> T.Optional[T.Tuple[Module, FuncNode, T.Optional[str], int]]:
+        """(module, function, family class key, number of leading implicit parameters) of a call that can be resolved:
+        self.m(...) / cls.m(...) / Class.m(self, ...) in the family, or a function of the same module."""
+        f = call.func
+        if isinstance(f, ast.Attribute):
+            recv = attr_chain(f.value)
+            if recv in ('self', 'cls') and an.cls_key is not None:
+                found = self.find(an.dispatch, f.attr)
+                if found is not None:
+                    m, c, fn = found
+                    static = any(attr_chain(d) == 'staticmethod' for d in fn.decorator_list)
+                    return m, fn, an.dispatch, 0 if static else 1
+            elif recv is not None:
+                ck = self.resolve_member(an.mod, recv)
+                if ck is not None:
+                    found = self.find(ck, f.attr)
+                    if found is not None:
+                        m, c, fn = found
+                        implicit = 1 if any(attr_chain(d) == 'classmethod' for d in fn.decorator_list) else 0
+                        return m, fn, ck, implicit      # Class.m(obj, ...): obj is bound explicitly to `self`
+        elif isinstance(f, ast.Name) and an.mod.has_func(f.id):
+            return an.mod, an.mod.func(f.id), None, 0
+        return None
+
+    @staticmethod
+    def bind(fn: FuncNode, call: ast.Call, implicit: int) -> T.Optional[T.Dict[int, str]]:
+        """id(argument expression) -> parameter name, by position or keyword; None when the call cannot be bound."""
+        a = fn.args
+        pos = [x.arg for x in a.posonlyargs + a.args][implicit:]
+        names = set(pos) | {x.arg for x in a.kwonlyargs}
+        out: T.Dict[int, str] = {}
+        for i, arg in enumerate(call.args):
+            if isinstance(arg, ast.Starred) or i >= len(pos):
+                return None
+            out[id(arg)] = pos[i]
+        for k in call.keywords:
+            if k.arg is None or k.arg not in names:
+                return None
+            out[id(k.value)] = k.arg
+        return out
+
+    def param_effect(self, mod: Module, fn: FuncNode, cls_key: T.Optional[str], pname: str, entry: Status) -> Status:
+        """State of the list bound to parameter `pname` when `fn` returns, given its state at the call."""
+        key = (id(fn), cls_key, pname, entry[0])
+        if key in self._peff:
+            return self._peff[key]
+        if key in self._peff_busy:
+            return (UNKNOWN, f'recursive call through {fn.name}')
+        self._peff_busy.add(key)
+        try:
+            an = Analysis(self, mod, fn, fn.name, cls_key, entry={pname: entry})
+            an.run()
+            res = an.exit_status(pname)
+        finally:
+            self._peff_busy.discard(key)
+        self._peff[key] = res
+        return res
+
     def cfg(self, fn: FuncNode) -> CFG:
         c = self._cfg.get(id(fn))
         if c is None:
@@ -227,6 +289,7 @@ class Family:
     def solve(self) -> None:
         for rnd in range(12):
             changed = False
+            self._peff.clear()
             for m, c in self.members:
                 ck = self.cls_key(m, c)
                 for meth in self.all_methods(ck):
@@ -279,7 +342,10 @@ class Analysis:
     """One function, one entry assumption."""
 
     def __init__(self, fam: Family, mod: Module, fn: FuncNode, qname: str, cls_key: T.Optional[str],
-                 self_entry: T.Optional[Status] = None):
+                 self_entry: T.Optional[Status] = None, entry: T.Optional[T.Dict[str, Status]] = None,
+                 extra_tracked: T.Iterable[str] = ()):
+        self.entry = dict(entry or {})                 # assumed state of parameters at entry (callee summaries)
+        self.extra_tracked = frozenset(extra_tracked) | frozenset(self.entry)
         self.fam = fam
         self.mod = mod
         self.fn = fn
@@ -298,7 +364,7 @@ class Analysis:
         self.call_ret: T.Dict[int, Status] = {}
         self.cfg = fam.cfg(fn)
         self.out: T.Dict[int, State] = {}
-        key = (id(fn), cls_key)
+        key = (id(fn), cls_key, self.extra_tracked)
         if key not in fam._static:
             self._pairs = self._assign_pairs_raw()
             fam._static[key] = (self._pairs, self._tracked(), self._may_alias(), self._handles())
@@ -310,7 +376,7 @@ class Analysis:
 
     # -- which receivers are lazy lists in this function -------------------------
     def _tracked(self) -> T.Set[str]:
-        t: T.Set[str] = set()
+        t: T.Set[str] = set(self.extra_tracked)
         if self.is_method:
             t.add('self')
         for n in walk_no_nested(self.fn, include_root=False):
@@ -443,6 +509,8 @@ class Analysis:
     # -- state ------------------------------------------------------------------
     def default(self, key: str) -> Status:
         root = key.split('.')[0]
+        if key in self.entry:
+            return self.entry[key]
         if root == 'self' and key == 'self' and self.self_entry is not None:
             return self.self_entry
         if root in self.params:
@@ -884,8 +952,7 @@ class Analysis:
             self.ev(a, st, cond)
         # family method on a tracked receiver
         if recv_key is not None and recv_key in self.tracked and meth is not None:
-            for a in args:
-                self.passed(a, st, f'`{recv_key}.{meth}`')
+            self.arg_effects(e, args, st, cond, f'`{recv_key}.{meth}`')
             self.call_ret[id(e)] = self.method_effect(recv_key, meth, st, cond, e)
             return
         # mutation of a pending queue: X.pre.extendleft(...), X.post.append(...)
@@ -914,8 +981,35 @@ class Analysis:
                     self.passed(a, st, 'a constructor of the family')
             self.call_ret[id(e)] = self.fam.ctor_status(ck)
             return
-        for a in args:
-            self.passed(a, st, f'`{short(f, 40)}(...)`')
+        self.arg_effects(e, args, st, cond, f'`{short(f, 40)}(...)`')
+
+    def arg_effects(self, e: ast.Call, args: T.List[ast.AST], st: State, cond: bool, to: str) -> None:
+        """Lists handed to a callee: follow a resolvable repository callee (arguments bound to its parameters by
+        position or keyword) and apply what it does to that parameter; anything else makes the list `unknown`."""
+        mine = [a for a in args if attr_chain(a) is not None and attr_chain(a) in self.tracked]
+        if not mine:
+            return
+        res = self.fam.resolve_callee(self, e)
+        binding = self.fam.bind(res[1], e, res[3]) if res is not None else None
+        for a in mine:
+            kk = T.cast(str, attr_chain(a))
+            if res is None or binding is None or id(a) not in binding:
+                self.passed(a, st, to)
+                continue
+            pname = binding[id(a)]
+            cur = self.get(st, kk)
+            if self._record:
+                self.fam.sites.setdefault((id(res[1]), pname), []).append((cur, self.qname))
+            if cur[0] == UNKNOWN:
+                continue
+            eff = self.fam.param_effect(res[0], res[1], res[2], pname, (cur[0], cur[1]))
+            if eff[0] == CLEAN:
+                st[kk] = (CLEAN, f'{res[1].name} leaves it flushed') if (cur[0] == CLEAN or not cond) else \
+                    (UNKNOWN, f'`{kk}` is flushed only conditionally inside `{short(e, 60)}`')
+            elif eff[0] == DIRTY:
+                self.dirty(st, kk, eff[1] if cur[0] == DIRTY else f'`{short(e, 60)}`: {res[1].name} queues entries in its parameter `{pname}` ({eff[1]})')
+            else:
+                st[kk] = (UNKNOWN, f'`{kk}` is handed to {res[1].name}: {eff[1]}')
 
 
 def _arms(e: ast.AST) -> T.List[ast.AST]:
